@@ -65,6 +65,14 @@ def strat_inputs(draw):
     if draw(st.integers(0, 7)) == 0:
         case["spec"]["drop_invalid_rows"] = True
         case["lazy"] = True
+    if (draw(st.integers(0, 11)) == 0 and case["spec"].get("kind", "dataframe") == "dataframe"
+            and case.get("entry") != "column" and case["table"]["columns"]):
+        # a dataframe-level parser that changes the set of columns (drops / renames a column the schema names, or
+        # adds one): only the error channel is judged here, so no reference semantics are needed
+        col = draw(st.sampled_from([t["name"] for t in case["table"]["columns"]]))
+        kind = draw(st.sampled_from(["frame_drop", "frame_drop", "frame_rename", "frame_add"]))
+        case["spec"]["parsers"] = list(case["spec"].get("parsers") or []) + [{"kind": kind, "column": col}]
+        case["parser_ops"] = list(case.get("parser_ops") or []) + ["structural-parser"]
     if draw(st.integers(0, 19)) == 0 and case.get("entry") != "column" and case["spec"].get("kind") != "column":
         case["argument"] = draw(st.sampled_from(["list", "series-for-frame", "frame-for-series", "dict", "int", "str"]))
     return case
